@@ -1,4 +1,4 @@
-import Proofs.Lemmas.C08FragDefs
+import Proofs.Lemmas.C08FragProp
 /-!
 # C08 fragment equivalence: escapes outside classes, UnicodeMode
 
@@ -460,7 +460,7 @@ theorem isHex_plain {c : Nat} (h : ESG.isHex c = true) : Plain c := by
   simp only [ESG.isHex, ESG.isDigit, Bool.or_eq_true, Bool.and_eq_true, decide_eq_true_eq] at h
   refine ⟨?_, ?_, ?_, ?_, ?_⟩ <;> omega
 
-theorem hex4_neutral (F : Feat) (m : Bool) {s r : List Nat} {v : Nat} (h : hex4 s = some (v, r)) :
+theorem hex4_neutral (F : Feat) (m : Nat) {s r : List Nat} {v : Nat} (h : hex4 s = some (v, r)) :
     ∃ t, s = t ++ r ∧ NeutralM F m t := by
   rcases s with _ | ⟨a, _ | ⟨b, _ | ⟨c, _ | ⟨d, r0⟩⟩⟩⟩ <;> simp only [hex4] at h <;> try cases h
   split at h
@@ -477,7 +477,7 @@ theorem hex4_neutral (F : Feat) (m : Bool) {s r : List Nat} {v : Nat} (h : hex4 
     · exact isHex_plain hh.2
   · cases h
 
-theorem uEscapeU_neutral (F : Feat) (m : Bool) {s r : List Nat} {v : Nat} (h : uEscapeU s = some (v, r)) :
+theorem uEscapeU_neutral (F : Feat) (m : Nat) {s r : List Nat} {v : Nat} (h : uEscapeU s = some (v, r)) :
     ∃ t, s = t ++ r ∧ NeutralM F m t := by
   unfold uEscapeU at h
   split at h
@@ -530,7 +530,7 @@ theorem isAsciiLetter_plain {c : Nat} (h : ESG.isAsciiLetter c = true) : Plain c
   simp only [ESG.isAsciiLetter, Bool.or_eq_true, Bool.and_eq_true, decide_eq_true_eq] at h
   refine ⟨?_, ?_, ?_, ?_, ?_⟩ <;> omega
 
-theorem charEscapeU_neutral (F : Feat) (m : Bool) {x : Nat} {r r' : List Nat} {v : Nat}
+theorem charEscapeU_neutral (F : Feat) (m : Nat) {x : Nat} {r r' : List Nat} {v : Nat}
     (h : charEscapeU x r = some (v, r')) : ∃ t, r = t ++ r' ∧ NeutralM F m t := by
   unfold charEscapeU at h
   split at h
@@ -572,7 +572,7 @@ theorem charEscapeU_neutral (F : Feat) (m : Bool) {x : Nat} {r r' : List Nat} {v
             · cases h
 
 /-- What an `AtomEscape` of the fragment consumes. -/
-theorem atomEscape_neutral (F : Feat) (m : Bool) (c : Cfg) (hcu : c.u = true) {x : Nat} {r r' : List Nat}
+theorem atomEscape_neutral (F : Feat) (m : Nat) (c : Cfg) (hcu : c.u = true) {x : Nat} {r r' : List Nat}
     {est est' : ESG.St} (hx : escOk false x = true) (hd : ¬ (0x31 ≤ x ∧ x ≤ 0x39))
     (h : atomEscape c (x :: r) est = .ok (r', est')) :
     est' = est ∧ ∃ t, r = t ++ r' ∧ NeutralM F m t := by
@@ -750,7 +750,7 @@ theorem consumeAtomEscape_dec (st1 : PState) (hu : st1.flags.unicode = true) {x 
   simp only [d1, d2, d3, d4, d5, hu, Bool.false_and, Bool.false_eq_true, if_false, Bool.and_self,
     if_true, decimalLiteral_eq, hk]
 
-theorem dec_neutral (F : Feat) (m : Bool) {x : Nat} (r : List Nat) (hd : 0x31 ≤ x ∧ x ≤ 0x39) :
+theorem dec_neutral (F : Feat) (m : Nat) {x : Nat} (r : List Nat) (hd : 0x31 ≤ x ∧ x ≤ 0x39) :
     ∃ p, 0x5C :: x :: r = p ++ (takeDigits (x :: r) 0 0).2.2 ∧ NeutralM F m p := by
   have hdg : ESG.isDigit x = true := by simp [ESG.isDigit]; omega
   obtain ⟨p, hp, hall⟩ := takeDigits_split r
@@ -874,5 +874,74 @@ theorem mono (c : Cfg) (n : Nat) : Mono c n := by
            · have := hb.refs; rw [ha.2.1] at this; exact this
            · have := hb.names; rw [ha.2.2.1] at this; exact (List.suffix_cons _ _).trans this)
         | grind
+
+/-! ## Property escapes as atoms -/
+
+theorem atomEscape_p (c : Cfg) (hcu : c.u = true) {x : Nat} (hx : x = 0x70 ∨ x = 0x50) (r : List Nat)
+    (est : ESG.St) :
+    atomEscape c (x :: r) est =
+      match propEscape c (x == 0x50) r with
+      | .ok (r', _) => .ok (r', est)
+      | .bad => .bad
+      | .fuel => .fuel := by
+  unfold atomEscape
+  rcases hx with rfl | rfl <;> simp [hcu, ESG.isClassEscLetter, ESG.isDigit] <;> rfl
+
+/-- `\p{…}` / `\P{…}` outside a class, UnicodeMode. -/
+theorem atomEscape_p_sim (c : Cfg) (hct : c.t = tabs) (hcu : c.u = true) (st1 : PState)
+    (hu : st1.flags.unicode = true) (hv : st1.flags.unicodeSets = c.v) {x : Nat} {r : List Nat}
+    (hx : x = 0x70 ∨ x = 0x50) (hin : st1.input = x :: r) (est : ESG.St) :
+    match atomEscape c (x :: r) est with
+    | .ok (r', est') => est' = est ∧ (∃ nd, consumeAtomEscape st1 = .ok (nd, { st1 with input := r' })) ∧
+        ∃ q, r = q ++ r' ∧ ∀ y ∈ q, Plain y
+    | .bad => IsSyn (consumeAtomEscape st1)
+    | .fuel => False := by
+  have hce : consumeAtomEscape st1 =
+      match propertyEscape st1.flags.unicodeSets r with
+      | .error e => .error e
+      | .ok (.charClass cps, rest') =>
+        if st1.flags.icase then
+          .ok (mkBracket false
+            (if (x == 0x50) && st1.flags.unicodeSets then CPS.inverted (Fold.addIcaseCodePoints cps)
+             else if (x == 0x50) then Fold.addIcaseCodePoints (CPS.inverted cps)
+             else Fold.addIcaseCodePoints cps), { st1 with input := rest' })
+        else .ok (mkBracket (x == 0x50) cps, { st1 with input := rest' })
+      | .ok (.stringSet strs, rest') =>
+        if (x == 0x50) then synErr "Invalid character escape"
+        else .ok (.stringSet strs st1.flags.icase, { st1 with input := rest' }) := by
+    unfold consumeAtomEscape
+    rw [hin]
+    rcases hx with rfl | rfl <;> simp [hu] <;> rfl
+  rw [atomEscape_p c hcu hx r est, hce, hv]
+  have hs := prop_sim c hct (x == 0x50) r
+  cases hpe : propEscape c (x == 0x50) r with
+  | fuel => rw [hpe] at hs; exact hs
+  | bad =>
+    rw [hpe] at hs
+    simp only
+    rcases hs with ⟨msg, hm⟩ | ⟨hneg, _, strs, r', hm⟩
+    · rw [hm]; exact ⟨msg, rfl⟩
+    · rw [hm]; simp only [hneg, if_true]; exact isSyn_synErr _
+  | ok p =>
+    obtain ⟨r', ms⟩ := p
+    rw [hpe] at hs
+    obtain ⟨hpfx, hs⟩ := hs
+    simp only
+    cases ms with
+    | true =>
+      simp only [if_true] at hs
+      obtain ⟨hneg, _, strs, hm⟩ := hs
+      rw [hm]
+      simp only [hneg, Bool.false_eq_true, if_false]
+      exact ⟨trivial, ⟨_, rfl⟩, hpfx⟩
+    | false =>
+      simp only [Bool.false_eq_true, if_false] at hs
+      obtain ⟨ivs, hm⟩ := hs
+      rw [hm]
+      simp only
+      refine ⟨trivial, ?_, hpfx⟩
+      cases st1.flags.icase
+      · exact ⟨_, rfl⟩
+      · exact ⟨_, rfl⟩
 
 end Regress.C08Frag
